@@ -65,6 +65,31 @@ theorem convert_list_meaning_faithful (k : Kind) (c : Cfg) (ca : Nat → Option 
     funext d; cases d <;> simp [mapDenotData, hg]
   rw [this, List.map_id]
 
+/-- **Conversion preserves the meaning of a list, from the sections**: for every unit (any
+encoding, `low_pc`, `addr_base`), every content of the list sections and of `.debug_addr`, every
+offset: if `convert_range_list` / `convert_location_list` succeeds, then the reader resolves the
+input list at that offset without error, and the converted list means exactly what the reader
+yields for the input (location descriptions re-encoded). No hypothesis on the input bytes. -/
+theorem convert_list_meaning_at (k : Kind) (u : UnitCtx) (secs : Sections) (ca : Nat → Option Addr)
+    (ce : Bytes → CR WExpr) (enc : WExpr → Bytes) (hid : IdConv ca) (hs : ValidSize u.cfg.addrSize)
+    (hlen : secs.debugAddr.length < 2 ^ 64) (offset : Nat) (out : WList)
+    (h : convertList k u secs ca ce offset = .ok out) :
+    ∃ evsIn : List (Ev Item),
+      cookedAt k u.cfg (decide (k = .loc) && u.dwo)
+        (legacySec k secs) (v5Sec k secs) offset u.lowPc secs.debugAddr u.addrBase = .ok evsIn ∧
+      meaning u.cfg.addrSize enc u.lowPc out =
+        (evsIn.map denot).map (mapDenotData (gdata k ce enc)) := by
+  unfold convertList at h
+  obtain ⟨evs, h1, h2⟩ := except_bind_ok h
+  have hraw := liftRead_ok h1
+  have hfit := rawAt_fits _ _ _ _ _ _ evs hraw
+  obtain ⟨l, hl, hm⟩ := convert_list_meaning k u.cfg ca ce secs.debugAddr u.addrBase enc hid hs hlen evs
+    (decide (u.lowPc ≠ 0)) u.lowPc (by simp) hfit out h2
+  obtain ⟨evsIn, hin1, hin2⟩ := Props.C08.resolve_refines_entries u.cfg secs.debugAddr u.addrBase hs hlen l u.lowPc
+  refine ⟨evsIn, ?_, by rw [hm, hin2]⟩
+  rw [cookedAt_eq, hraw, hl]
+  exact hin1
+
 /-- **`have_base_address` agrees between converter and writer**: the converter starts with
 `from_unit.low_pc != 0`, the writer with "the root has a `DW_AT_low_pc` other than
 `Address::Constant(0)`"; for a unit whose `low_pc` attribute (if any) is converted by the identity
@@ -255,5 +280,31 @@ theorem convert_errors (k : Kind) (c : Cfg) (ca : Nat → Option Addr) (ce : Byt
     simp [convertEntry, unitAddress, h, liftRead, bind, Except.bind]
   · intro a h
     simp [convertEntry, convAddr, h, bind, Except.bind]
+
+/-! ## non-vacuity -/
+
+private def cfg4 : Cfg := { endian := .little, format := .dwarf32, version := 4, addrSize := 4 }
+private def cfg5 : Cfg := { endian := .little, format := .dwarf32, version := 5, addrSize := 4 }
+private def idc : Nat → Option Addr := fun a => some (.const a)
+private def ceRaw : Bytes → CR WExpr := fun d => .ok [.raw d]
+
+example : IdConv idc := fun _ => rfl
+example : ∀ x ∈ [Entry.pair 0x10 0x20 [], .baseAddress 0x1000, .pair 1 1 [], .pair 3 9 []], RawFits cfg4 x := by decide
+-- DWARF 4, low_pc = 0: address pair → StartEnd; after the base address entry → OffsetPair; the empty pair is dropped
+example : convertEntries .rng cfg4 idc ceRaw [] 0 false
+    ([Entry.pair 0x10 0x20 [], .baseAddress 0x1000, .pair 1 1 [], .pair 3 9 []].map .item) =
+    .ok [.startEnd (.const 0x10) (.const 0x20) [], .baseAddress (.const 0x1000), .offsetPair 3 9 []] := by decide
+-- DWARF 5 with indexed entries resolved through `.debug_addr` (two 4-byte slots), a failing index is an error
+example : convertEntries .loc cfg5 idc ceRaw [0, 0x10, 0, 0, 0x40, 0x10, 0, 0] 0 true
+    ([Entry.startxEndx 0 1 [0x50], .startxLength 1 0 [0x51], .defaultLocation [0x52]].map .item) =
+    .ok [.startEnd (.const 0x1000) (.const 0x1040) [.raw [0x50]], .defaultLocation [.raw [0x52]]] := by decide
+example : convertEntries .rng cfg5 idc ceRaw [0, 0x10, 0, 0] 0 false [.item (.baseAddressx 1)] =
+    .error (.read .rUnexpectedEof) := by decide
+example : convertEntries .rng cfg4 (fun _ => none) ceRaw [] 0 false [.item (.pair 1 2 [])] =
+    .error .invalidAddress := by decide
+example : convertEntries .rng cfg4 (fun a => some (.symbol 0 a)) ceRaw [] 0 true [.item (.pair 1 2 [])] =
+    .error .invalidRangeRelativeAddress := by decide
+example : ∀ d, gdata .loc ceRaw (dataBytes .loc cfg5 (fun _ => none) 0) d = d := by
+  intro d; simp [gdata, convData, ceRaw, dataBytes, exprBytes, writeOps, writeOp]
 
 end Gimli.Props.C12
